@@ -37,6 +37,9 @@ type FeeCase struct {
 	Powers   []int64 `json:"powers"`
 	NoMinter []bool  `json:"no_minter"`
 	Txs      []FeeTx `json:"txs"`
+	// Drift: stake changes (in 1/1000 of each validator's power) that take effect after the signer sets were published
+	// and before the batch executes; small ones do not trigger a new signer set
+	Drift []int `json:"drift,omitempty"`
 }
 
 func genFeeCase(t *rapid.T) interface{} {
@@ -54,6 +57,11 @@ func genFeeCase(t *rapid.T) interface{} {
 	for i := 0; i < nv; i++ {
 		c.Powers = append(c.Powers, rapid.SampledFrom([]int64{1, 1, 2, 3, 7, 100, 1000, 1 << 31, 1 << 40}).Draw(t, "power"))
 		c.NoMinter = append(c.NoMinter, i > 0 && rapid.IntRange(0, 4).Draw(t, "nominter") == 0)
+	}
+	if rapid.IntRange(0, 2).Draw(t, "drifting") == 0 {
+		for i := 0; i < nv; i++ {
+			c.Drift = append(c.Drift, rapid.SampledFrom([]int{0, 0, 10, -10, 30, -30, 70, -70, 200, -200}).Draw(t, "drift"))
+		}
 	}
 	n := rapid.SampledFrom([]int{1, 2, 2, 3, 3, 4, 5, 8, 13, 30, 100}).Draw(t, "ntx")
 	spread := rapid.IntRange(0, 3).Draw(t, "spread")
@@ -152,6 +160,25 @@ func runFeeCase(ci interface{}, rec *pbt.Rec) *pbt.Failure {
 				ExternalHeight: 100, TxHash: fmt.Sprintf("0x%064x", i+1)})
 		}
 	}
+	// stake drifts after the signer sets of block 1 were published (applied at this block's staking step)
+	live := append([]int64{}, c.Powers...)
+	for i, d := range c.Drift {
+		if i < len(live) {
+			np := live[i] + live[i]*int64(d)/1000
+			if np >= 1 {
+				live[i] = np
+			}
+		}
+	}
+	if len(c.Drift) > 0 {
+		lv := append([]int64{}, live...)
+		h.QueueStaking(func(s *sim.SimStaking) {
+			for i := range lv {
+				s.Vals[i].Power = lv[i]
+			}
+		})
+		rec.Label("stake-drift-before-execution")
+	}
 	if err := h.End(); err != nil {
 		return nil // C05's subject
 	}
@@ -245,13 +272,13 @@ func runFeeCase(ci interface{}, rec *pbt.Rec) *pbt.Failure {
 	}
 	// 3. commission: proportional to power among validators with a minter key, sum within collected
 	var stakeSum int64
-	for i, p := range c.Powers {
+	for i, p := range live {
 		if !c.NoMinter[i] {
 			stakeSum += p
 		}
 	}
 	commSum := new(big.Int)
-	for i, p := range c.Powers {
+	for i, p := range live {
 		addr := sim.EthAddr(i, "minter", 0).Hex()
 		got := commTo[addr]
 		if c.NoMinter[i] {
@@ -296,7 +323,12 @@ func runFeeCase(ci interface{}, rec *pbt.Rec) *pbt.Failure {
 			continue
 		}
 		seen[tx.TxHash] = true
-		r := h.K.GetTxFeeRecord(ctx, tx.TxHash)
+		// the record as reported to users (TransactionFeeRecord query)
+		qr, qerr := h.K.TransactionFeeRecord(sdk.WrapSDKContext(ctx), &mtypes.TransactionFeeRecordRequest{TxHash: tx.TxHash})
+		if qerr != nil || qr == nil {
+			return pbt.Failf("fee-record-query", "TransactionFeeRecord(%s): %v", tx.TxHash, qerr)
+		}
+		r := qr.Record
 		if r == nil {
 			return pbt.Failf("fee-record-missing", "no fee record for executed transfer %d", tx.Id)
 		}
